@@ -61,9 +61,13 @@ CLAIMED = {
          "update_ttl, delete, change_id answer unknown-id on absent or expired records and otherwise change exactly that record "
          "(change_id moves it atomically, duplicate-id if the new id is live); delete_expired removes only expired records (loop "
          "invariants, unbounded). A syntactic lock-scope check (one critical section per method) lifts the sequential contracts to "
-         "linearizability. Thorough adds native tests of the real store."),
-   note=("Claimed for the in-memory store only. NOT decided: the SQLite store (SQL semantics are outside any Rust verifier), "
-         "concurrency beyond the lock-scope argument. Assumed: clock constant within one operation; time arithmetic as integers; vstd's "
+         "linearizability. The SQLite store (SQL strings run by an external engine: outside any Rust verifier) is covered by a BOUNDED "
+         "stand-in only, labelled as such in the evidence and never counted as proved: pseudo-random histories of 14 operations over "
+         "three ids (TTL 0 / 5 s / 1 h, so no waiting) on the real SqliteSessionStore, compared with the map-with-expiry after every "
+         "operation (600 histories quick, 6000 thorough); the same search runs on the in-memory store (6000 / 60000). Two defects of "
+         "the SQLite store found this way were repaired (fix: commits 176a896, ad9ee78); one is recorded as a known finding."),
+   note=("Proved for the in-memory store; bounded for SQLite. NOT decided: SQLite under concurrent connections, the Postgres/MySQL stores "
+         "(need a server), concurrency beyond the lock-scope argument. Assumed: clock constant within one operation; time arithmetic as integers; vstd's "
          "HashMap specs + key model for SessionId + an assumed spec of HashMap::get_mut; tokio Mutex erased (rule N6)."),
    design="§3/C13"),
  "C11": dict(
@@ -136,7 +140,7 @@ def main():
         }],
         "checks": checks,
         "not_applicable": [{"property_id": k, "reason": v} for k, v in sorted(NA.items()) if k not in CLAIMED],
-        "notes": "exit 0 = all registered obligations discharged; exit 1 = VIOLATION; exit 2 = UNDECIDED (lost anchor, unsupported construct, tool failure, vacuity, assumption allow-list mismatch) — never an alarm.",
+        "notes": "exit 0 = all registered obligations discharged; exit 1 = VIOLATION; exit 2 = UNDECIDED (lost anchor, unsupported construct, tool failure, vacuity, assumption allow-list mismatch) — never an alarm. Genuine defects repaired in /repo by unguarded `fix:` commits (recorded as `fixed` in known_findings.json, which suppresses nothing): 90b25f9, e446e6d, 49c30e7, 60035b8 (C11), b76f29c (C10), 176a896, ad9ee78 (C13, SQLite). One known finding (C13, SqliteSessionStore::create over a live record answers Ok without writing) is listed in known_findings.json and printed as KNOWN-FINDING. No hooks: /repo carries no verification-only code.",
     }
     json.dump(m, open(os.path.join(V, "MANIFEST.json"), "w"), indent=1)
     print("claimed:", sorted(CLAIMED), "n/a:", len(m["not_applicable"]))
